@@ -140,3 +140,49 @@ pub proof fn lemma_canon_query_unique(m: QMap, s1: Seq<u8>, s2: Seq<u8>)
     }
     vstd::seq_lib::lemma_sorted_unique(l1, l2, |a: Pair, b: Pair| pair_le(a, b));
 }
+
+/// how often a pair is listed depends only on the multiset of (name, value) pairs the query string denotes
+pub proof fn lemma_pair_count_map_of(pairs: Seq<Pair>, p: Pair)
+    ensures pair_count(map_of(pairs), p) == (if p.0 != SIG() { pairs.to_multiset().count(p) } else { 0 })
+    decreases pairs.len()
+{
+    broadcast use vstd::seq_lib::group_to_multiset_ensures;
+    if pairs.len() == 0 {
+        assert(pairs =~= Seq::<Pair>::empty());
+        Seq::<Pair>::empty().to_multiset_ensures();
+        assert(Seq::<Pair>::empty().to_multiset().len() == 0);
+        assert(Seq::<Pair>::empty().to_multiset() =~= Multiset::<Pair>::empty());
+    } else {
+        let pre = pairs.drop_last();
+        let (k, v) = pairs.last();
+        lemma_pair_count_map_of(pre, p);
+        assert(pairs =~= pre.push((k, v)));
+        vstd::seq_lib::to_multiset_build(pre, (k, v));
+        let m = map_of(pre);
+        if p.0 == k {
+            if m.contains_key(k) {
+                vstd::seq_lib::to_multiset_build(m[k], v);
+            } else {
+                assert(seq![v] =~= Seq::<Seq<u8>>::empty().push(v));
+                vstd::seq_lib::to_multiset_build(Seq::<Seq<u8>>::empty(), v);
+                Seq::<Seq<u8>>::empty().to_multiset_ensures();
+                assert(Seq::<Seq<u8>>::empty().to_multiset().len() == 0);
+                assert(Seq::<Seq<u8>>::empty().to_multiset() =~= Multiset::<Seq<u8>>::empty());
+            }
+        }
+    }
+}
+/// C10: two query strings that denote the same multiset of decoded pairs (any parameter order, any spelling) have the same canonical query
+pub proof fn lemma_canon_query_depends_on_multiset_only(p1: Seq<Pair>, p2: Seq<Pair>, s1: Seq<u8>, s2: Seq<u8>)
+    requires p1.to_multiset() == p2.to_multiset(), is_canon_query(map_of(p1), s1), is_canon_query(map_of(p2), s2)
+    ensures s1 == s2 //# C10 C02 name=independent_of_parameter_order
+{
+    let l1 = choose|l: Seq<Pair>| is_canon_list(map_of(p1), l) && s1 == render(l);
+    assert(is_canon_list(map_of(p2), l1)) by {
+        assert forall|p: Pair| #[trigger] l1.to_multiset().count(p) == pair_count(map_of(p2), p) by {
+            lemma_pair_count_map_of(p1, p); lemma_pair_count_map_of(p2, p);
+        }
+    }
+    assert(is_canon_query(map_of(p2), s1));
+    lemma_canon_query_unique(map_of(p2), s1, s2);
+}
